@@ -3,6 +3,7 @@
 
 mod c01net;
 mod c03net;
+mod c04net;
 mod c08net;
 mod c14;
 mod c15;
@@ -46,6 +47,7 @@ fn main() {
         child_start(port, timeout);
     }
     let cli = Cli::parse();
+    c04net::install_panic_monitor();
     // C01 mode: the mock session server's port has to be known (and exported for hook H1) before any
     // other thread exists
     let session_listener = if cli.prop == "C01" {
@@ -100,9 +102,11 @@ fn main() {
             }
             // C04 through the application wiring: frames around the configured maximum via passage::start
             "C04" => {
-                let mut report = vp_common::Report::new(&cli, "exploration", "listener-level part of C04: Status Request frames padded to max / max+1 / max+12 / 10×max against listeners started through passage::start from Config values and config files; distinct = (listener configuration, declared length)");
+                let mut report = vp_common::Report::new(&cli, "exploration", "listener-level part of C04: Status Request frames padded to max / max+1 / max+12 / 10×max against listeners started through passage::start from Config values and config files; 28 unusual or malformed PROXY v1/v2 headers (no addresses, unspecified family, TLVs, maximum and lying lengths, wrong family for the payload), whole and split, followed by a status exchange, against listeners allowing v1+v2 / v1 / v2, under a process-wide panic monitor; distinct = (listener configuration, declared length or header)");
                 c14::run(&cli, &mut report).await;
                 report.retain_violations(|sig| sig.starts_with("frame-"));
+                // ... and what precedes the first frame: unusual and malformed PROXY headers (panic monitor)
+                c04net::run(&cli, &mut report).await;
                 report.finish()
             }
             // C06 at the listener: what a connection that is cut off at the deadline is sent
